@@ -37,6 +37,32 @@ pub const PROGRAMS: &[(&str, &str)] = &[
     ("heredoc-in-func", "f() {\nvcat <<EOF\nbody\nEOF\n}\nf\n"),
     ("heredoc-two", "vcat <<A; vcat <<B\na\nA\nb\nB\n"),
     ("dq-multiline", "echo \"a\nb\"\necho after\n"),
+    // every construct that can hold a command open across a line end
+    ("ansi-c-multiline", "echo $'a\nb\\tc'\necho after\n"),
+    ("ansi-c-multiline-escaped-quote", "echo $'a\\'\nb'\necho after\n"),
+    ("backquote-multiline", "echo `echo a\necho b`\necho after\n"),
+    ("param-default-multiline", "unset u\necho \"${u:-a\nb}\"\necho after\n"),
+    ("param-default-unquoted-multiline", "unset u\necho ${u:-a\nb}\necho after\n"),
+    ("arith-cmd-multiline", "((x = 1 +\n2))\necho $x\n"),
+    ("cond-multiline", "[[ a == a &&\nb == b ]]\necho $?\n"),
+    ("cond-paren-multiline", "[[ ( a == a\n) ]]\necho $?\n"),
+    ("dq-cmdsub-multiline", "echo \"x $(echo a\necho b) y\"\necho after\n"),
+    ("cmdsub-dq-multiline", "echo $(echo \"a\nb\")\necho after\n"),
+    ("for-list-multiline", "for i in a \\\nb\ndo echo $i\ndone\n"),
+    ("until-multiline", "until true\ndo\necho n\ndone\necho after\n"),
+    ("function-keyword-multiline", "function f\n{\necho in-f\n}\nf\n"),
+    ("function-subshell-body-multiline", "f() (\necho in-f\n)\nf\n"),
+    ("bang-group-multiline", "! {\nfalse\n}\necho $?\n"),
+    ("time-group-multiline", "time {\necho a\n} 2>/dev/null\necho after\n"),
+    ("assoc-array-multiline", "declare -A m=([a]=1\n[b]=2)\necho ${#m[@]}\n"),
+    ("case-pattern-multiline", "case a in\nb |\na)\necho A;;\nesac\n"),
+    ("elif-multiline", "if false\nthen :\nelif true\nthen\necho e\nfi\n"),
+    ("heredoc-in-cmdsub", "x=$(vcat <<EOF\nbody\nEOF\n)\necho \"$x\"\n"),
+    ("herestring-dq-multiline", "vcat <<<\"a\nb\"\necho after\n"),
+    ("sq-in-dq-multiline", "echo \"it's\nfine\"\necho after\n"),
+    ("comment-with-quote", "echo a # don't\necho b\n"),
+    ("semicolon-newline-list", "echo a;\necho b\n"),
+    ("amp-newline", "vtrue &\nwait\necho b\n"),
     ("sq-multiline", "echo 'a\nb'\necho after\n"),
     ("cmdsub-multiline", "echo $(echo a\necho b)\necho after\n"),
     ("arith-multiline", "echo $((1 +\n2))\n"),
